@@ -245,8 +245,10 @@ PROPS = {
                        "concrete Kani obligation that is expected to fail.",
         "trusted_base": COMMON_TRUST + ["Verus 0.2026.09.13 + Z3; vstd specs of slices/Option/u64::trailing_zeros; slice::partition_point stub with its documented contract",
                                         "seam R4 between unit c21_index (proved) and the stubs of unit c21_cursor"],
-        "assumptions": ["index invariant assumed of callers (rank arrays built by build_rank over the same words, text_len == text.len(), "
-                        "tail bits clear, every newline bit is a marker bit, < 2^32 markers)",
+        "assumptions": ["the index invariant dsv_wf is ESTABLISHED by the constructor DsvIndexLightweight::new (proved: rank arrays are the cumulative "
+                        "popcounts of the stored words; its u32 assert holds) from: word vectors cover text_len bits, bits past text_len clear, "
+                        "text_len <= u32::MAX. That the builders hand such vectors to `new`, and that every newline bit is a marker bit "
+                        "(cursor precondition), is the C20 builder postcondition, linked by reading",
                         "Dsv/DsvRef::row and rows() wrappers (two-line compositions of goto_row / DsvRows::new) are not extracted"],
     },
     "C08": {
